@@ -56,9 +56,9 @@ def _classify(op, out):
 CFG = PropCfg(
     "C07", "HopModel.Props.C07",
     [SuiteCfg("C07", signature=_sig, nontrivial=_nontrivial, classify=_classify),
-     SuiteCfg("C07e2e", signature=_sig, nontrivial=_nontrivial, classify=_classify, parts_thorough=4),
+     SuiteCfg("C07e2e", signature=_sig, nontrivial=_nontrivial, classify=_classify, parts_thorough=4, timeout=900),
      # last, so that its (known) disagreements cannot crowd out others
-     SuiteCfg("C07full", signature=_sig, nontrivial=_nontrivial, classify=_classify, parts_thorough=1)],
+     SuiteCfg("C07full", signature=_sig, nontrivial=_nontrivial, classify=_classify, parts_thorough=1, timeout=900)],
     rule="suite C07: a case is one history on a real HopServer (grant = AddAuthGrant, login = "
          "AuthorizeKeyAuthGrant + session in the state checkAuthorization leaves, exec = the head of startCodex: "
          "checkCmd through the verif shim with the clock set through thunks.TimeNow, intent = checkIntent, dump = "
